@@ -259,6 +259,8 @@ def second_validation(rnd, first, rid="r1"):
     if rnd.random() < 0.3:
         request["op"]["soll"] = not request["op"]["soll"]
     request["start"] = rnd.choice([1_000_000, 1_000_000, 0, 1, 3])
+    if request["start"] >= 1_000_000 and rnd.random() < 0.4:
+        request["start"], request["phase"] = 0, 1  # "afterwards" = in a new event loop of the same process
     if request["start"] < 1_000_000 and rnd.random() < 0.35:
         # the concurrent caller is cancelled (as asyncio.wait_for would) or one of its evaluators fails: it is no
         # longer observed itself, the first validation must not notice
